@@ -76,6 +76,13 @@ def _mc(tier, recs):
 
 Q = sched(3, 3, ("quick",), 1500)
 T = sched(4, 8, ("thorough",), 7200)
+# cross-check of the symmetry reduction: the same contracts over arbitrary (un-renamed, un-partitioned) queue contents, pool 3
+NS = sched(3, 3, ("thorough",), 10800, parts=False)
+for _h in NS:
+    _h.name += "_nosym"
+    _h.defs.append("-DNOSYM")
+    _h.note = "no symmetry reduction, no partition: run queue and timer queue are arbitrary disjoint duplicate-free sequences over the pool"
+T = T + [h for h in NS if h.entry not in ("h_initial", "h_cmp")]
 prop("C01", "model_checking", EXPL, Q + T, trusted=TRUST, assumptions=ASSUME, mc=_mc)
 prop("C02", "model_checking", EXPL + " C02 reads the timer clauses of the same contracts: never early, due order, cyclic arithmetic, cancellation by run request / kill; the comparators are proved over their full 2^64 domain.",
      [h for h in Q + T if h.entry in ("h_next", "h_timeout", "h_drain", "h_cmp", "h_run", "h_kill")], trusted=TRUST, assumptions=ASSUME, mc=_mc)
